@@ -261,7 +261,17 @@ def main(argv: List[str]) -> int:
         if not errors and args.model:
             for model in args.model:
                 if args.target:
-                    translate(library_ast, model, "sympy", options, args.outdir)
+                    try:
+                        success = translate(library_ast, model, "sympy", options, args.outdir)
+                    # Flattening (part of translation) can throw Exception in several places
+                    except Exception:  # pylint: disable=broad-except
+                        if log.level is logging.DEBUG:
+                            log.exception("Error translating %s", model)
+                        else:
+                            log.error("Error translating %s", model)
+                        success = False
+                    if not success:
+                        errors += 1
                 elif args.model:
                     try:
                         _ = flatten_class(library_ast, model)
